@@ -175,6 +175,18 @@ def impl_wbp(bs, ds, nseg, nsh, ues):
     return ver, fields, w.get_allocated_size()
 
 
+def safe_wbp(ctx, bs, ds, nseg, nsh, ues):
+    try:
+        return impl_wbp(bs, ds, nseg, nsh, ues)
+    except Exception as e:
+        ctx.case(None, kind="layout-error")
+        ctx.oracle_fail("share-layout-raises-" + type(e).__name__,
+                        "make_write_bucket_proxy(block_size=%d, data_size=%d, num_segments=%d, num_share_hashes=%d) raised %s: %s instead of choosing a layout or FileTooLargeError"
+                        % (bs, ds, nseg, nsh, type(e).__name__, e),
+                        case={"block_size": bs, "data_size": ds, "num_segments": nseg, "num_share_hashes": nsh, "uri_extension_size": ues})
+        return "raised"
+
+
 def arith(ctx):
     ctx.correspondence("size-arithmetic-vs-model")
     ctx.correspondence("share-layout-vs-model")
@@ -220,7 +232,9 @@ def arith(ctx):
         # share layout for these parameters
         nsh = r.choice([1, 2, 3, 4, 5, 9])
         ues = r.choice([0, 1, 300, 419, 2 ** 16])
-        w = impl_wbp(enc[4], enc[1], enc[0], nsh, ues)
+        w = safe_wbp(ctx, enc[4], enc[1], enc[0], nsh, ues)
+        if w == "raised":
+            continue
         terms.append(wbp_term(enc[4], enc[1], enc[0], nsh, ues, w))
         info.append(("layout", dict(case, block_size=enc[4], data_size=enc[1], num_segments=enc[0], num_share_hashes=nsh, uri_extension_size=ues), w))
         ctx.case(("layout", enc[4], enc[1], enc[0], nsh, ues), kind="layout")
@@ -248,7 +262,9 @@ def arith(ctx):
             bs = 1
         if ds < 0 or bs < 0:
             continue
-        w = impl_wbp(bs, ds, nseg, nsh, ues)
+        w = safe_wbp(ctx, bs, ds, nseg, nsh, ues)
+        if w == "raised":
+            continue
         terms.append(wbp_term(bs, ds, nseg, nsh, ues, w))
         info.append(("layout", {"block_size": bs, "data_size": ds, "num_segments": nseg, "num_share_hashes": nsh, "uri_extension_size": ues}, w))
         ctx.case(("layout", bs, ds, nseg, nsh, ues), kind="layout-limit")
@@ -374,10 +390,13 @@ def run_read(data, segsize, guess, offset, size):
     from twisted.python.failure import Failure
     node = _StubNode(data, segsize, guess)
     cons = _Consumer()
-    d = DownloadNode.read(node, cons, offset, size)
-    out = []
-    d.addBoth(out.append)
-    node.pump()
+    try:
+        d = DownloadNode.read(node, cons, offset, size)
+        out = []
+        d.addBoth(out.append)
+        node.pump()
+    except Exception as e:      # e.g. an assertion inside Segmentation
+        return "raises:" + type(e).__name__, cons.writes, node.requests
     if not out:
         return "hung", cons.writes, node.requests
     if isinstance(out[0], Failure):
@@ -407,7 +426,7 @@ def segmentation(ctx):
         got = b"".join(writes)
         ctx.case(("seg", fsize, segsize, guess, offset, size) if want else None, kind="read-" + ("whole" if size is None else "range"))
         if status != "ok" or got != want:
-            ctx.oracle_fail("read-range-wrong-bytes" if status == "ok" else "read-range-" + status,
+            ctx.oracle_fail("read-range-wrong-bytes" if status == "ok" else "read-range-" + status.replace(":", "-"),
                             "read(offset=%d,size=%r) of a %d-byte file in %d-byte segments (guess %d): status %s, %d bytes delivered, expected %d"
                             % (offset, size, fsize, segsize, guess, status, len(got), len(want)), case=case,
                             expected=want[:64].hex(), observed=got[:64].hex())
@@ -549,7 +568,7 @@ def grid(ctx):
         fifo = r.choice(["server", "server", "server", "none"])
         case = {"size": size, "k": k, "n": n, "happy": happy, "max_segment_size": max_seg, "servers": ns, "seed": seed, "fifo": fifo, "i": i}
         with G.Grid(num_servers=ns, k=k, n=n, happy=happy, max_segment_size=max_seg, seed=seed, fifo=fifo, timeout=120) as g:
-            out = g.run(g.upload_results(data, convergence=b"C01"), outcome=True)
+            out = g.run(lambda: g.upload_results(data, convergence=b"C01"), outcome=True)
             ctx.case(("up", size, k, n, happy, max_seg, ns, seed), kind="grid-upload")
             if out.status != "ok":
                 ctx.oracle_fail("upload-fails:" + str(out.error), "upload of %d bytes %d-of-%d (happy %d) to %d honest servers: %s %s" % (
@@ -629,7 +648,7 @@ def grid(ctx):
                     off, sz = size + rr.randrange(0, 3), rr.choice([None, 5])
                 dcase = dict(case, download_seed=dseed, keep=sorted(keep), offset=off, read_size=sz)
                 want = data[off:] if sz is None else data[off:off + sz]
-                o2 = g.run(g.download_range(cap, off, sz), outcome=True)
+                o2 = g.run(lambda: g.download_range(cap, off, sz), outcome=True)
                 ctx.case(("dl", i, j, dseed, tuple(sorted(keep)), off, sz) if want else None, kind="grid-" + mode)
                 if o2.status != "ok":
                     ctx.oracle_fail("download-fails:" + str(o2.error), "read(%d,%r) of a %d-byte %d-of-%d file with shares %r present: %s %s" % (
@@ -692,7 +711,7 @@ def replay(ctx, record):
         data = make_data(size, case.get("i", 0))
         with G.Grid(num_servers=case["servers"], k=case["k"], n=case["n"], happy=case["happy"], max_segment_size=case["max_segment_size"],
                     seed=case["seed"], fifo=case.get("fifo", "server"), timeout=120) as g:
-            out = g.run(g.upload_results(data, convergence=b"C01"), outcome=True)
+            out = g.run(lambda: g.upload_results(data, convergence=b"C01"), outcome=True)
             if out.status != "ok":
                 ctx.oracle_fail("upload-fails:" + str(out.error), "replayed upload fails", case=case)
                 return {"upload": out.status, "error": out.error}
@@ -703,7 +722,7 @@ def replay(ctx, record):
                         g.delete_share(sh)
                 g.sched.reseed(case["download_seed"])
             off, sz = case.get("offset", 0), case.get("read_size")
-            o2 = g.run(g.download_range(cap, off, sz), outcome=True)
+            o2 = g.run(lambda: g.download_range(cap, off, sz), outcome=True)
             want = data[off:] if sz is None else data[off:off + sz]
             if o2.status != "ok" or o2.value != want:
                 ctx.oracle_fail("roundtrip-wrong-bytes" if o2.status == "ok" else "download-fails:" + str(o2.error), "replayed download differs", case=case)
